@@ -49,9 +49,11 @@ SIG = {
     "log_softmax_forward": dict(fibre="axis", params=[("a", "V"), ("axis", "AXIS")]),
     "log_softmax_backward": dict(fibre="axis", params=[("grad", "V"), ("log_softmax_a", "V"), ("axis", "AXIS")]),
     "nll_loss_forward": dict(fibre="row", params=[("y_pred", "V"), ("y_true", "LABEL")]),
-    "nll_loss_backward": dict(fibre="row", params=[("grad", "keep"), ("y_pred", "V"), ("y_true", "LABEL")]),
+    # the upstream gradient of the losses has the shape of the per-row loss, (N,): it must be reshaped to a column before it
+    # meets the (N, C) array (`grad * <array>` is refused: a reduced-shape value does not broadcast against the array)
+    "nll_loss_backward": dict(fibre="row", params=[("grad", "flat"), ("y_pred", "V"), ("y_true", "LABEL")]),
     "cross_entropy_loss_forward": dict(fibre="row", params=[("y_pred", "V"), ("y_true", "LABEL")]),
-    "cross_entropy_loss_backward": dict(fibre="row", params=[("grad", "keep"), ("y_pred", "V"), ("y_true", "LABEL")]),
+    "cross_entropy_loss_backward": dict(fibre="row", params=[("grad", "flat"), ("y_pred", "V"), ("y_true", "LABEL")]),
     "batch_norm_forward": dict(fibre="channel", params=[("x", "V"), ("gamma", "opt"), ("beta", "opt"),
                                                         ("running_mean", "opt"), ("running_var", "opt"),
                                                         ("training", "BOOL"), ("momentum", "sc"), ("eps", "sc")]),
@@ -1015,8 +1017,6 @@ def print_wiring(ir, w):
     """composed definitions <wrapper>_out and <wrapper>_grad_<input>; returns (text, None | reason the grads are missing)"""
     kf = ir["kernels"][w["stem"] + "_forward"]
     kb = ir["kernels"].get(w["stem"] + "_backward")
-    fk = [(p, k) for p, k in kf["params"] if k != "AXIS"]
-    bk = [(p, k) for p, k in kb["params"] if k != "AXIS"]
     fa = [a for a, (p, k) in zip(w["fargs"], kf["params"]) if k != "AXIS"]
     # wrapper-level parameters in the order of the wrapper signature, typed by the forward kernel's parameter they feed
     ptype = {}
@@ -1069,8 +1069,11 @@ def _print_wiring_grads(ir, w, kf, kb, ptype, decl, fcall, fpat, fnames, nf):
                 raise Untranslatable(WRAP_REL, "%s: backward axis differs from forward axis" % w["wrapper"])
             continue
         if a[0] == "grad":
-            if k not in ("V", "keep"):
+            if k not in ("V", "keep", "flat"):
                 raise Untranslatable(WRAP_REL, "%s: grad feeds a parameter of kind %s" % (w["wrapper"], k))
+            if k != kf["ret"][0][1]:      # out.grad has the shape of the forward's result
+                raise Untranslatable(WRAP_REL, "%s: the forward returns a %s-shaped value but the backward kernel reads its upstream gradient as %s"
+                                     % (w["wrapper"], kf["ret"][0][1], k))
             gkind = k
             bargs.append("g")
         elif a[0] == "fout":
